@@ -176,6 +176,13 @@ def expRangeReduce (fuel : Nat) (x : Flt) : Option Flt :=
   | none => none
   | some (y, steps) => some (sqr3 steps (expTaylor y))
 
+/-- `halvings` of `exp`: one guard bit per squaring of the range reduction, `min(exp + 3, E + 3)` for `exp ≥ 0` -/
+def Flt.expHalvings (x : Flt) : Nat :=
+  if x.exp < 0 then 0 else Nat.min (x.exp.toNat + 3) (x.sem.e + 3)
+
+/-- working format of `exp` -/
+def Flt.expSem (x : Flt) : Sem := (x.sem.growLog (10 + x.expHalvings)).increaseExponent 10
+
 /-- `exp`, exp.rs -/
 def Flt.expFuel (fuel : Nat) (x : Flt) : Option Flt :=
   let sem0 := x.sem
@@ -183,12 +190,12 @@ def Flt.expFuel (fuel : Nat) (x : Flt) : Option Flt :=
   else if x.isInf then some (if x.sign then Flt.zero sem0 false else Flt.inf sem0 false)
   else if !x.isNormal then some (Flt.nan sem0 x.sign)
   else
-    let sem := (sem0.growLog 10).increaseExponent 10
+    let sem := x.expSem
     if x.sign then
       let one := Flt.one sem false
       -- `self.cast(sem).neg().exp()`: a positive normal argument of format `sem`
       let y := (x.cast sem).neg
-      let sem2 := (sem.growLog 10).increaseExponent 10
+      let sem2 := y.expSem
       (expRangeReduce fuel (y.cast sem2)).map (fun r => (one.div (r.cast sem)).cast sem0)
     else
       (expRangeReduce fuel (x.cast sem)).map (·.cast sem0)
